@@ -273,7 +273,7 @@ def run_two_pass(loads, law, second=True):
     try:
         det = FKMNonlinearDetector(recorder=rec, notch_approximation_law=law)
         det.process_hcm_first(loads)
-        first_rows = len(rec._run_index)
+        first_rows = None
         if second:
             det.process_hcm_second(loads)
     except Exception as e:    # noqa
